@@ -81,7 +81,7 @@ func init() {
 	core.Register(&core.Prop{
 		ID:    "C03",
 		Level: "fault_enumeration",
-		Rule: "histories of length 1-4 (6 hand-written + seeded random ones over a 4-version chart family with hooks; prefix ops may carry one scripted failure) on memory/secrets(/configmaps) storage; the last op (install|upgrade|rollback) is run for every combination of atomic x cleanup-on-fail x no-hooks (x replace for install; rollback: cleanup x no-hooks) and, per combination, once per single fault: every cluster request of its fault-free trace answered 500 once, every wait call failing, every hook readiness failing. " +
+		Rule: "histories of length 1-4 (7 hand-written + seeded random ones over a 4-version chart family with hooks; prefix ops may carry one scripted failure) on memory/secrets(/configmaps) storage; the last op (install|upgrade|rollback) is run for every combination of atomic x cleanup-on-fail x no-hooks (x replace for install; rollback: cleanup x no-hooks) and, per combination, once per single fault: every cluster request of its fault-free trace answered 500 once, every wait call failing, every hook readiness failing. " +
 			"distinct_nontrivial counts distinct (driver, op+flags, fault category, outcome, ledger shape after) tuples among executions in which the fault fired and the op failed.",
 		Assumptions: []string{
 			"the simulated API server (sim) applies requests like a real API server (CRUD, strategic/merge patch, 404/409)",
@@ -159,7 +159,7 @@ func directedFamily() gen.Family {
 	}}
 }
 
-var directedNames = []string{"fresh-install", "replace-install", "grow-shrink-upgrade", "rollback-with-hooks", "never-deployed-superseded", "drifted-custom-resource"}
+var directedNames = []string{"fresh-install", "replace-install", "grow-shrink-upgrade", "rollback-with-hooks", "never-deployed-superseded", "drifted-custom-resource", "nothing-deployed-after-failed-rollback"}
 
 func mkSetup(d caseData) setup {
 	var s setup
@@ -182,6 +182,11 @@ func mkSetup(d caseData) setup {
 			// 1 deployed; 2 failed (wait); rollback->1 fails while updating: helm marks 2 superseded although
 			// it never was deployed; the atomic upgrade must still restore revision 1's manifest.
 			s.prefix = []hop{in, {Op: env.Op{Kind: "upgrade", Chart: 1}, Fail: "wait"}, {Op: env.Op{Kind: "rollback", ToRev: 1}, Fail: "create"}}
+			s.target = env.Op{Kind: "upgrade", Chart: 2}
+		case "nothing-deployed-after-failed-rollback":
+			// 1 superseded, 2 superseded (was deployed), 3 failed (rollback whose update was rejected): no
+			// revision is marked deployed, yet revision 2 is the most recent one that had been deployed
+			s.prefix = []hop{in, {Op: env.Op{Kind: "upgrade", Chart: 1}}, {Op: env.Op{Kind: "rollback", ToRev: 1}, Fail: "create"}}
 			s.target = env.Op{Kind: "upgrade", Chart: 2}
 		case "drifted-custom-resource":
 			// 2 failed at wait: the cluster (incl. the Widget) is at v1; the target renders the Widget as
